@@ -336,7 +336,7 @@ theorem dlinv_init (wait : Nat) : DLInv wait {} where
   cr := by intro c hc; cases hc
   rn := by intro r hr; cases hr
 
-theorem mem_stopCur {s : DLState} {t : Model.C20.LTimer} (h : t ∈ stopCur s) : t ∈ s.timers := by
+theorem mem_stopCur {s : DLState} {t : Model.C20.DLTimer} (h : t ∈ stopCur s) : t ∈ s.timers := by
   unfold stopCur at h
   cases hc : s.cur with
   | none => rw [hc] at h; exact h
